@@ -186,7 +186,7 @@ def families(tier, rng):
 # report layouts enumerated by TLC (spec/ReportGen.tla)
 
 GEN_CFGS = {"quick": [("ReportGen", 4)], "thorough": [("ReportGen", 4), ("ReportGen3", 8), ("ReportGenL", 8)]}
-GEN_SAMPLE = {"quick": 110, "thorough": 2500}
+GEN_SAMPLE = {"quick": 100, "thorough": 2500}
 STANDIN_LINES = 6      # lines of a file that is only named by #line (so some renumbered lines exist on disk, some do not)
 
 # statements planted on one remembered line: (kind, column or None, pad)
@@ -198,7 +198,7 @@ LINE_PATTERNS = [
     [("undef", 100, "lead")],                      # longer than the report's width: heading on a line of its own
     [("bare", 17, "tab")],                         # the echoed text is shown with the tabs expanded
     [("funny", 9, "lead"), ("bare", 40, "lead")],
-    [("bare", None, "lead"), ("bare", 12, "lead"), ("bare", 50, "lead")],
+    [("bare", None, "lead"), ("bare", 16, "lead"), ("bare", 50, "lead")],
 ]
 
 
@@ -243,7 +243,17 @@ def gen_families(chk, tier, rng):
         for cl in classes:
             if byclass[cl] and len(picked) < want:
                 picked.append(byclass[cl].pop(rng.randrange(len(byclass[cl]))))
-    fams = []
+    # One family for all generated layouts: a pool of planted statements, slot s (the s-th planted line of a case)
+    # x pattern p; a case uses the statements of the (slot, pattern) pairs it chose.  The base layout holds them all.
+    nslots = max(len(d["lines"]) for d in picked)
+    pool, faults = {}, []
+    for sl in range(nslots):
+        for p, pat in enumerate(LINE_PATTERNS):
+            pool[(sl, p)] = []
+            for kind, col, pad in pat:
+                faults.append(G.Fault(kind, len(faults) + 1, col=col, pad=pad))
+                pool[(sl, p)].append(len(faults) - 1)
+    vs = [("same", dict(k=0, where=1, style="blank"))]
     names = set()
     for n, d in enumerate(picked):
         if rng.random() < 0.5:
@@ -253,20 +263,13 @@ def gen_families(chk, tier, rng):
             pair = rng.choice(sorted(map(tuple, d["clash"])))
             lines = sorted(set(pair))                          # only two lines with the same line number
             how = "pair"
-        faults, plan = [], {}
-        for g in lines:
-            pat = rng.choice(LINE_PATTERNS)
-            plan[str(g)] = []
-            for kind, col, pad in pat:
-                faults.append(G.Fault(kind, len(faults) + 1, col=col, pad=pad))
-                plan[str(g)].append(len(faults) - 1)
+        plan = {str(g): pool[(sl, rng.randrange(len(LINE_PATTERNS)))] for sl, g in enumerate(sorted(lines))}
         top = d["hist"][0]["file"] if d["hist"] else "ra.as"
         real = {h["file"] for h in d["hist"]}
         standins = {h["f"]: STANDIN_LINES for h in d["hist"] if h["k"] == "line" and h["f"] and h["f"] not in real}
-        fkey = "gen%d/%s/%s" % (n, how, "+".join(f.key() for f in faults))
-        kw = dict(hist=d["hist"], plan=plan, top=top, standins=standins, tail=rng.choice([0, 2, 2, 3]))
-        fams.append((fkey, faults, "sem", [("same", dict(k=0, where=1, style="blank")), ("gen", kw)]))
+        vs.append(("gen", dict(hist=d["hist"], plan=plan, top=top, standins=standins, tail=rng.choice([0, 2, 2, 3]), how=how, n=n)))
         names.add(layout_class(d))
+    fams = [("gen", faults, "sem", vs)]
     chk.extra["gen_layouts"] = {"exported_by_tlc": len(lay), "classes": len(classes), "replayed": len(picked),
                                 "classes_replayed": len(names)}
     return fams
@@ -311,7 +314,8 @@ def variants(tier, faults, phase, rng):
         out.append(("incline", dict(k=k, where=2, style=st(), n=7, fname="")))
     if len(faults) > 1 and phase == "sem":
         # two messages adjacent in the report with the same line number on different lines (spec/Report.tla)
-        for k in ([0, 2, 16384] if tier == "quick" else [0, 1, 2, 100, 16383, 16384, 65536, 70000]):
+        quick_adj = tier == "quick" and faults[0].kind != "undef"       # quick: two of the multi-fault families
+        for k in ([] if quick_adj else [0, 2, 16384] if tier == "quick" else [0, 1, 2, 100, 16383, 16384, 65536, 70000]):
             for mode in ("inc", "line", "same", "rev"):
                 out.append(("adj", dict(k=k, where=1, style=st(), mode=mode)))
     if not overflowing(faults):
@@ -334,13 +338,15 @@ class Interner(object):
         return self.tab.setdefault(s, len(self.tab) + 1)
 
 
-EXTRA_STYLES = {"nosort": (["-Mno-sort"], False, False), "preview": (["-Mpreview"], True, True), "m2": (["-M2"], True, False)}
+# style name -> (options, messages sorted, previews printed)
+EXTRA_STYLES = {"nosort": (["-Mno-sort"], False, False), "preview": (["-Mpreview"], True, True), "m2": (["-M2"], True, False),
+                "nosort+preview": (["-Mno-sort", "-Mpreview"], False, True)}
 
 
 def styles_for(layout, faults):
     """the styles a case is compiled in, besides the default one and -Mno-source"""
     if layout in ("gen", "adj"):
-        return ["nosort", "preview"]
+        return ["nosort+preview"]       # the sorted report is the default run's
     if layout not in ("same", "eofif") and any(f.phase in ("incl", "scan") for f in faults):
         # reported while the includer is still filling the line table (not `eofif': as written the table entry
         # that shadows the included file's last line is made AFTER that line's message was previewed, and the
@@ -389,6 +395,10 @@ def compile_case(build, case):
 def observe(c, o, faults, it):
     """Project what the compiler printed for case c (o = compile_case's result)."""
     outs, flen, srcs = o
+    # only the statements that are in this case's files can have produced a message (a family may hold a pool)
+    present = {t["id"] for its in c["files"].values() for x in its for t in x["toks"]} | \
+              {x["id"] for its in c["files"].values() for x in its if x["id"]}
+    faults = [f for f in faults if f.i in present or f in c.get("pseudo", [])]
     c["obs"] = G.observations(outs[0][1], outs[1][1], faults, it)
     c["rc"] = tuple(x[0] for x in outs)
     c["flen"] = flen
@@ -803,4 +813,28 @@ Binding demonstration (2026-10-04, scratch worktrees of /repo under /tmp, remove
  lead to identical states (one of the two counts).
  model self-checks: the four expected-violation configurations (IncludeAswPack, IncludeAswTbl, IncludeAswEof, IncludeNoLimit) must
  be violated, otherwise the run is a machinery error.
+
+ ---- strengthening round (2026-10-04): the REPORT of the default message style (spec/Report.tla, ReportGen.tla) ----
+ class added: comsg.c sorts the messages, groups consecutive ones of one source line under ONE heading `"file", line N: <text>',
+ draws the carets and prints `[Ln Cm]' leads; the heading is the only place that names the file.  Before, only the positions of
+ the individual messages were compared (-M no-source file/line + [L C] of the default run).  Now every case's default-style output
+ is parsed into groups (heading file/line, echoed text vs the text of that line of THAT file on disk, caret columns relative to
+ the echoed text, leads, grouping and order) and TraceSrcPos compares it with Report(T, messages in order of generation, ...);
+ layouts `gen' (TLC-enumerated: two remembered lines with the same line number in different files / renumbered stretches / three
+ files in thorough) and `adj' (the same at k = 0..70000) are also replayed with -Mno-sort and -Mpreview.
+ seeded changes (bin/seedtest, quick tier):
+   C15-2 (comsgReportFile groups by sposLine instead of sposGlobalLine)  was MISSED, now CAUGHT: 36+ rejections (gen 31, inc 4, incline 1
+         before `adj' existed); C15-1 and C15-3 still CAUGHT.
+ own mutations of the report code (one line each, all compile; bin/seedtest):
+   ma comsgPrintDots `cno = sposChar(spos) + 1' -> `sposChar(spos)'                      CAUGHT (gen, eofif: two messages in one column)
+   mb comsgPrintLine returns cc - 1 (caret line one column to the left)                  CAUGHT (every layout: align)
+   mc sposLineText `lastlno = lno + 1' -> `lno' (cache off by one: next line's text)     CAUGHT (echo # text of the named line)
+   md comsgReportFile merges messages of consecutive global lines under one heading      CAUGHT (adj, gen)
+ model self-checks: ReportLline (grouping by local line number) and ReportAswHead (heading as written) must be violated.
+ corrupted records: 9 more in selftest() (heading file, heading line, echo, caret, alignment, lead column, merged groups, heading
+ missing, group order): all rejected.
+ finding (open): no heading -- hence no file name -- when the renumbered line cannot be read; default style aborts when the file named
+ by #line is missing (key cause=nohead; hooks/candidate-C15-heading-without-source.diff: with it `C15 quick: held' and no case
+ needs the as-written model except eofif).
+ TraceSrcPosAsw.cfg now describes the tree as it is (column packer and table policy repaired, EOF-in-#if and heading as written).
 """
